@@ -25,13 +25,12 @@ def run_eq_bashsem_statement : Prop :=
     `BashSem` return the same result: both run out of fuel, or both give the same stdout bytes and
     the same exit status.  Excluded constructs (each an open known finding): `break`/`continue`
     away from tail positions of loop bodies, in conditions, in functions called from loops, with a
-    count outside `1..depth`; `return` without argument, in a subshell of a function, inside a
-    `for` body; `!` in front of anything but a simple command (or a subshell, without `set -e`);
+    count outside `1..depth`; `return` without argument or in a subshell of a function; `!` in front of anything but a simple command (or a subshell, without `set -e`);
     with `set -e`: subshells/command substitutions/pipelines where `-e` is (or may be) ignored,
     and `{ }`/`if`/`for`/`case`/function bodies ending in `! cmd` or `… && cmd`; pipelines whose
     last stage is not `true`/`false`/`echo`/`[ ]`; `while`/`until` bodies whose last command may
     fail; empty `case` clauses after `;&`/`;;&`; `trap … EXIT` in subshells or functions, or with
-    an action other than `echo`/`true`; every `trap … ERR`; function bodies that are not a plain
+    an action other than `echo`/`true` commands; every `trap … ERR`; function bodies that are not a plain
     `{ }`. -/
 theorem run_eq_bashsem_partial (e : Bool) (fuel : Nat) (p : Prog) (h : supportedProg e p = true) :
     runFile fuel p = Bash.semFile fuel p :=
@@ -230,8 +229,11 @@ example : supportedProg false w_return_subshell = false ∧ supportedProg true w
 def w_for_after_return : Prog :=
   (.cons (.mk false (.fn [102, 110, 49] (.mk false (.block (.cons (.mk false (.forc [105] [[97], [98], [99]] (.cons (.mk false (.ret (some 1))) .nil))) .nil))))) (.cons (.mk false (.call [102, 110, 49])) (.cons (.mk false (.echo [.var [105]])) .nil)))
 
-theorem cex_for_after_return : runFile 40 w_for_after_return ≠ Bash.semFile 40 w_for_after_return := by decide +kernel
-example : supportedProg false w_for_after_return = false ∧ supportedProg true w_for_after_return = false := by decide +kernel
+-- fixed in /repo by 7ead8d8 (the word-list `for` loop checks `stop()`): no longer a counter-example,
+-- the clause of `supportedProg` that excluded it is gone
+example : supportedProg false w_for_after_return = true := by decide +kernel
+example : runFile 40 w_for_after_return = some ([97, 10], 0) := by decide +kernel
+example : Bash.semFile 40 w_for_after_return = some ([97, 10], 0) := by decide +kernel
 
 /-- `set -e; ! { false; echo "b"; }; echo "a"` -/
 def w_negation_errexit : Prog :=
